@@ -158,6 +158,37 @@ def suffix_cases(c, d, ilog):
     return out
 
 
+def race_cases(c, d, ilog):
+    """the operation that was running where the logs diverged, raced against itself / insert / erase / contains of
+    the same key by a second thread: A = [insert k; op], B = [op'], schedules A^a B^b A^40 B^40 for a grid of a, b"""
+    if ilog is None or d.get("index", -1) < 0:
+        return []
+    line = d["impl"] if d["impl"] and d["impl"][0].isdigit() else d["model"]
+    try:
+        tid = int(line.split(" ")[0])
+    except ValueError:
+        return []
+    nops = sum(1 for l in ilog["lines"][:d["index"]] if l.startswith("%d ev inv" % tid))
+    ops = c["threads"][tid] if tid < len(c["threads"]) else []
+    if not ops:
+        return []
+    op = ops[max(0, min(nops - 1, len(ops) - 1))]
+    k = op[1]
+    out = []
+    variants = [op, [1, k, 77, 1], [5, k, 0, 0], [8, k, 0, 0]]
+    for vi, opb in enumerate(variants):
+        for setup in (0, 1):
+            ta = ([[1, k, 70, 1]] if setup else []) + [op]
+            for a in range(0, 110, 1):
+                for b in list(range(0, 24, 1)) + [30, 45]:
+                    cc = dict(c)
+                    cc["id"] = "%s_rc%d_%d_%d_%d" % (c["id"], vi, setup, a, b)
+                    cc["threads"] = [ta, [opb]]
+                    cc["sched"] = [0] * a + [1] * b + [0] * 40 + [1] * 40
+                    out.append(cc)
+    return out
+
+
 def correspond(cases, mlogs, ilogs):
     """-> (number compared, number agreeing, impl steps compared, first divergence (case, d) or None)"""
     n = ok = steps = 0; first = None
@@ -509,10 +540,13 @@ def run(ctx):
         if first is not None and nviol == 0:
             c, d = first
             # the correspondence broke: search for a concrete failure of the property on the real code.
-            # (1) directed: keep the program and the schedule up to the first divergence (the window the changed code
+            # (1) directed: the operation running at the first divergence raced against itself / insert / erase /
+            #     contains of the same key, over a grid of two-phase schedules;
+            # (2) directed: keep the program and the schedule up to the first divergence (the window the changed code
             #     opened), then let one thread run n steps, another one m steps, for many n, m;
-            # (2) more seeds.
-            more = suffix_cases(c, d, results[name][1].get(c["id"])) + gen_cases(ctx.rng.fork(), name, 4 * per_exe, "s")
+            # (3) more seeds.
+            more = race_cases(c, d, results[name][1].get(c["id"])) + suffix_cases(c, d, results[name][1].get(c["id"])) + \
+                   gen_cases(ctx.rng.fork(), name, 4 * per_exe, "s")
             rc, lg2 = run_impl(ctx, exes[name], more, "search_" + name)
             found = judge(ctx, EXES[name][2], name, more, lg2, lin, {}, "search_" + name)
             if not found:
